@@ -9,6 +9,7 @@ import (
 	"strings"
 	"sync/atomic"
 	"syscall"
+	"time"
 
 	"github.com/tetratelabs/wazero/verif/fw"
 )
@@ -219,9 +220,11 @@ func runSeq(x *inst, d *dirInfo, seq []rdStep, loc *rdLocal, verbose bool) *rdVi
 	for _, st := range seq {
 		r := x.readdir(fd, st.Buflen, st.Cookie)
 		loc.calls++
-		if verbose {
+		if verbose && r.Errno == 0 {
 			ents, _ := parseDirents(r.Buf, uint32(r.N))
-			fmt.Printf("  fd_readdir(buf_len=%d, cookie=%d) [%s] -> errno=%d bufused=%d entries=%s\n", st.Buflen, st.Cookie, st.Kind, r.Errno, r.N, entNames(ents))
+			fmt.Printf("  fd_readdir(buf_len=%d, cookie=%d) [%s] -> bufused=%d entries=%s\n", st.Buflen, st.Cookie, st.Kind, r.N, entNames(ents))
+		} else if verbose {
+			fmt.Printf("  fd_readdir(buf_len=%d, cookie=%d) [%s] -> errno=%d %s\n", st.Buflen, st.Cookie, st.Kind, r.Errno, r.Trap)
 		}
 		if r.Trap != "" {
 			return bad(st, "trap", r.Trap)
@@ -418,10 +421,15 @@ func readdirExplore(run *fw.Run, outcomes *fw.Counter, samples *fw.Sampler) rdSt
 		bufs = append(bufs, b)
 	}
 	bufs = append(bufs, 130, 200, 512, 2048)
-	depth := 4
-	var alts []uint32
+	// quick: depth 4, one buf_len per sequence. thorough: additionally depth 4 with the buf_len of every
+	// later call chosen from {first, 89} (a buffer that changes size mid-way) and depth 5 with one buf_len.
+	type plan struct {
+		alts  []uint32
+		depth int
+	}
+	plans := []plan{{nil, 4}}
 	if run.Thorough() {
-		alts = []uint32{24, 90}
+		plans = []plan{{[]uint32{89}, 4}, {nil, 5}}
 	}
 	type task struct {
 		d *dirInfo
@@ -436,7 +444,7 @@ func readdirExplore(run *fw.Run, outcomes *fw.Counter, samples *fw.Sampler) rdSt
 	locals := make([]rdLocal, len(tasks))
 	var cappedA atomic.Bool
 	pool(len(tasks), func(w *worker, i int) {
-		if run.Expired() {
+		if run.Expired() || (!hardStop.IsZero() && time.Now().After(hardStop)) {
 			cappedA.Store(true)
 			return
 		}
@@ -455,13 +463,15 @@ func readdirExplore(run *fw.Run, outcomes *fw.Counter, samples *fw.Sampler) rdSt
 			loc.outcomes[fmt.Sprintf("fd_readdir:buf_len<24:errno=%d", eINVAL)]++
 			in.do(&Op{K: "fd_close", Fd: fd})
 		}
-		enumerate(t.d, t.b, alts, depth, func(seq []rdStep) {
-			loc.sequences++
-			if v := runSeq(in, t.d, seq, loc, false); v != nil && len(loc.viol) < 3 {
-				v.c.Seq = append([]rdStep{}, seq...)
-				loc.viol = append(loc.viol, *v)
-			}
-		})
+		for _, p := range plans {
+			enumerate(t.d, t.b, p.alts, p.depth, func(seq []rdStep) {
+				loc.sequences++
+				if v := runSeq(in, t.d, seq, loc, false); v != nil && len(loc.viol) < 3 {
+					v.c.Seq = append([]rdStep{}, seq...)
+					loc.viol = append(loc.viol, *v)
+				}
+			})
+		}
 		if v := traverse(in, t.d, t.b, loc, false); v != nil {
 			loc.viol = append(loc.viol, *v)
 		}
@@ -491,8 +501,8 @@ func readdirExplore(run *fw.Run, outcomes *fw.Counter, samples *fw.Sampler) rdSt
 	}
 	st.bounds = map[string]any{
 		"directories": len(dirs), "dir_sizes": "0..6", "name_lengths": []int{1, 8, 40}, "buf_lens": fmt.Sprintf("24..%d + {130,200,512,2048}", 24+41*2),
-		"cookie_choices": "rewind, re-read, every d_next of the last window (continue / skip truncated), stale, invalid", "depth": depth,
-		"alternative_buf_lens_after_first_call": alts,
+		"cookie_choices": "rewind, re-read, every d_next of the last window (continue / skip truncated), stale, invalid",
+		"plans(alternative buf_lens after the first call, depth)": fmt.Sprint(plans),
 	}
 	return st
 }
